@@ -277,9 +277,14 @@ def rich_prog(
             pa = [draw(_operand(env, cx, const_pool=FLAG_CONSTS, p_const=0.7)) for _i in range(2)]
             unp = 2 if draw(st.booleans()) else None
             o = out()
+            hollow = unp is None and draw(st.sampled_from([True, False, False]))
+            if hollow:
+                # the value is a FALSY container whose parts can still be read (prog.Hollow); only the two flags use it
+                fns[fnp]["kind"] = "hpack"
             body.append({"k": "call", "fn": fnp, "site": cx.next_site(), "mark": True, "args": [e for e, _ in pa],
                          "kwargs": {}, "active": None, "unpack": unp, "tags": [], "out": o})
-            env.add(["v", o], Ty("tup", [t for _, t in pa], desc=unp is not None))
+            if not hollow:
+                env.add(["v", o], Ty("tup", [t for _, t in pa], desc=unp is not None))
             if unp:
                 cx.features.add("unpack")
             prev: Any = None
@@ -474,7 +479,11 @@ def rich_prog(
     if inner:
         # a nested DAG returns node results only: no constants, not None, no pass-through of its own parameters
         # (a defaulted parameter is a constant), no setup values (they survive deactivation)
-        pool = [(e, t) for e, t in vals if not t.setupv and not t.desc and _root(e)[0] != "p"]
+        # ... except a REQUIRED parameter handed back as it is: every call site supplies it, and what a deactivated
+        # nested DAG hands back for it is None like every other output
+        required_ = {n_ for n_, d_ in params if d_ is None}
+        pool = [(e, t) for e, t in vals if not t.setupv and not t.desc
+                and (_root(e)[0] != "p" or (e[0] == "p" and e[1] in required_))]
         if not pool:
             fn = new_fn("term")
             o = out()
